@@ -45,16 +45,17 @@ type stats struct {
 }
 
 // replay drives one fresh scheduler through one behaviour and leaves one trace (Reset .. End).
-func replay(t *rt.Trace, name string, beh []step, coord bool, rng *rand.Rand, st *stats) {
+func replay(t *rt.Trace, lane int, name string, beh []step, coord bool, rng *rand.Rand, st *stats) {
 	if len(beh) == 0 || beh[0].A != "Init" {
 		rt.Fatalf("c17: behaviour %s does not start with Init", name)
 	}
 	wof := beh[0].Wof
 	t.Reset(rt.M{"name": name, "wof": wof})
-	y := newSys(t, wof, func() bool { return rng.Intn(5) == 0 })
+	y := newSys(t, lane, wof, func() bool { return rng.Intn(5) == 0 })
 	if coord {
 		y.useCoordinator(rng)
 	}
+	y.alignedProbe(rng)
 	sameWorker := func(a, b int) bool { return wof[a-1] == wof[b-1] }
 
 	diverged := ""
@@ -62,10 +63,18 @@ func replay(t *rt.Trace, name string, beh []step, coord bool, rng *rand.Rand, st
 steps:
 	for i, s := range beh[1:] {
 		y.where = fmt.Sprintf("%s step %d %+v", name, i+1, s)
+		if y.apiWaited {
+			// an API call returned only after the held executions were let go (recorded in its Ret line)
+			diverged = "ApiWaited"
+			break steps
+		}
 		if s.Pre != nil && !y.syncLoop(s.Pre.Sw, s.Pre.Tk) {
 			// the loop's unlogged steps did not bring s.when / the timer channel to where the model has them:
 			// a difference in internals (or an unusually slow loop goroutine), never a verdict
 			diverged = "LoopState"
+			if y.apiWaited {
+				diverged = "ApiWaited"
+			}
 			break steps
 		}
 		switch s.A {
@@ -132,9 +141,6 @@ steps:
 					break
 				}
 			}
-			if g != nil {
-				g.released = true
-			}
 			y.mu.Unlock()
 			if g == nil {
 				diverged = "Finish"
@@ -143,7 +149,13 @@ steps:
 			// Which of several due ids gets a freed worker depends on where the spinning loop is when the worker
 			// reaches its channel.  Hold the loop (its lock) until the worker has checkpointed and had time to get
 			// there, so that the next pass finds it idle from the start, as in the model's quiescent schedule.
-			y.smu.Lock()
+			if !y.lockSched() {
+				diverged = "ApiWaited"
+				break steps
+			}
+			y.mu.Lock()
+			g.released = true
+			y.mu.Unlock()
 			g.ch <- s.Res
 			y.waitFor(fmt.Sprintf("checkpoint after Execute(%d,%d) [%s step %d]", s.ID, s.Occ, name, i+1), func() bool {
 				for _, c := range y.ckpts {
@@ -178,16 +190,19 @@ steps:
 // replayRace uses the same behaviour as a script of environment moves but does NOT wait for the scheduler between
 // them: API calls, clock jumps and execution ends race with the loop and the workers as they may.  Whatever happens
 // is recorded at the moment it happens and the trace specification (which places the unlogged steps freely) decides.
-func replayRace(t *rt.Trace, name string, beh []step, coord bool, rng *rand.Rand, st *stats) {
+func replayRace(t *rt.Trace, lane int, name string, beh []step, coord bool, rng *rand.Rand, st *stats) {
 	wof := beh[0].Wof
 	t.Reset(rt.M{"name": name, "wof": wof, "race": true})
-	y := newSys(t, wof, func() bool { return rng.Intn(5) == 0 })
+	y := newSys(t, lane, wof, func() bool { return rng.Intn(5) == 0 })
 	if coord {
 		y.useCoordinator(rng)
 	}
 	done := 0
 	for i, s := range beh[1:] {
 		y.where = fmt.Sprintf("%s (race) step %d %+v", name, i+1, s)
+		if y.apiWaited {
+			break
+		}
 		switch s.A {
 		case "Call":
 			if s.T == "S" {
@@ -337,6 +352,9 @@ func Run(r *rt.Run) error {
 	if dir == "" {
 		rt.Fatalf("c17: argument beh=<dir> required")
 	}
+	if lanes > len(apiLanes) {
+		lanes = len(apiLanes) // each lane has its own marker frame in goroutine dumps (api.go)
+	}
 	names, behs := loadBehaviours(dir)
 	if only := os.Getenv("C17_ONLY"); only != "" {
 		for i := range names {
@@ -373,9 +391,9 @@ func Run(r *rt.Run) error {
 				before := sts[l].diverged
 				if msg := guarded(func() {
 					if race > 0 && i%race == race-1 {
-						replayRace(traces[l], names[i], behs[i], i%3 == 1, rng, sts[l])
+						replayRace(traces[l], l, names[i], behs[i], i%3 == 1, rng, sts[l])
 					} else {
-						replay(traces[l], names[i], behs[i], i%3 == 1, rng, sts[l])
+						replay(traces[l], l, names[i], behs[i], i%3 == 1, rng, sts[l])
 					}
 				}); msg != "" {
 					stuckMu.Lock()
